@@ -89,10 +89,18 @@ func checkC02(ctx *Ctx) {
 			}
 		}
 		// AND lists
+		// sub: when non-nil, the bounds of the group being built come from these few pool members
+		// only (lists whose bounds repeat and tie: ">>1.0, >=2.0, >>2.0" — redundancy elimination
+		// and "tightest bound" bookkeeping are decided between equal bounds with different
+		// comparators, which independent draws from a large pool never produce)
+		var sub []int
 		mkCons := func() (string, func(any) bool, any, string) {
 			ops := sortedStrs(syn.Ops)
 			op := ops[r.Intn(len(ops))]
 			bi := r.Intn(len(ss))
+			if sub != nil {
+				bi = sub[r.Intn(len(sub))]
+			}
 			b, bv := ss[bi], vs[bi]
 			canon := syn.Ops[op]
 			return op + b, func(pv any) bool { return satOp(canon, cmpS(e, pv, bv)) }, bv, b
@@ -104,6 +112,22 @@ func checkC02(ctx *Ctx) {
 			}
 			if r.Chance(5) {
 				k = r.Range(12, 40) // long lists: text of several hundred bytes
+			}
+			sub = nil
+			if r.Chance(35) {
+				// two or three bounds for the whole list, three to six constraints
+				sub = []int{r.Intn(len(ss)), r.Intn(len(ss))}
+				if r.Chance(40) {
+					sub = append(sub, r.Intn(len(ss)))
+				}
+				// a Compare-equal respelling of one of them, where the pool has one
+				for j := range ss {
+					if j != sub[0] && cmpS(e, vs[j], vs[sub[0]]) == 0 {
+						sub = append(sub, j)
+						break
+					}
+				}
+				k = r.Range(3, 6)
 			}
 			var texts []string
 			var preds []func(any) bool
